@@ -16,7 +16,7 @@
 (* consensus, context, letter, totals) is recomputed here from these raw fields.                  *)
 EXTENDS TraceLib, Util
 
-T == INSTANCE Taps WITH L <- 0, Alphabet <- {}, Mode <- "trace", GeomRefs <- {}, MaxFrags <- 0, Variant <- "design",
+T == INSTANCE Taps WITH L <- 0, Alphabet <- {}, Mode <- "trace", GeomRefs <- {}, MaxFrags <- 0, DistMode <- "zero", Variant <- "design",
                         scn <- 0, pc <- "trace", target <- "-", fi <- 0, tally <- 0, cons <- 0, todo <- 0, calls <- 0,
                         ri <- 0, tagged <- 0
 
@@ -33,7 +33,9 @@ Walk(r) ==
                  ELSE s,
              [ q |-> 0, p |-> r.start, al |-> <<>> ], Expand(r.cigar))
 AbsRead(r) == LET w == Walk(r) IN [ mate |-> r.mate, rev |-> r.rev, start |-> r.start, end |-> w.p, al |-> w.al ]
-AbsFrags(e) == [ i \in DOMAIN e.frags |-> [ reads |-> [ k \in DOMAIN e.frags[i].reads |-> AbsRead(e.frags[i].reads[k]) ] ] ]
+(* e.dr1 / e.dr2: the dove_R1_distance / dove_R2_distance handed to the molecule (methylation_consensus_kwargs; 0 = default) *)
+AbsFrags(e) == [ i \in DOMAIN e.frags |-> [ reads |-> [ k \in DOMAIN e.frags[i].reads |-> AbsRead(e.frags[i].reads[k]) ],
+                                            dr1 |-> e.dr1, dr2 |-> e.dr2 ] ]
 ReadsOf(e) == FoldLeft(LAMBDA acc, f : acc \o f.reads, <<>>, e.frags)
 Tagged(e) == LET rs == ReadsOf(e) IN [ i \in DOMAIN rs |-> [ al |-> Walk(rs[i]).al, xm |-> rs[i].xm, tot |-> rs[i].tot ] ]
 CallsOf(e) == LET S == SeqSet(e.calls) IN [ p \in { c.p : c \in S } |-> (CHOOSE c \in S : c.p = p).letter ]
